@@ -1,6 +1,7 @@
 package vrt_test
 
 import (
+	"context"
 	"fmt"
 	"sort"
 	"strings"
@@ -662,5 +663,115 @@ func TestPrefixLeakIsADifferentialFinding(t *testing.T) {
 	r := vrt.Explore(sc, vrt.Options{Bound: 0})
 	if f := has(r, "differential"); f == nil || len(r.Findings) != 1 {
 		t.Fatalf("leak from the prefix operation not reported exactly once: %s %+v", r.HarnessError, r.Findings)
+	}
+}
+
+// ---- context cancellation, daemon goroutines, environment threads ---------------------------
+
+// miniCanceler is the shape of a graceful-shutdown interceptor: a background goroutine started
+// when the interceptor is built waits for the shutdown context, then cancels every registered
+// in-flight call. byMethod registers the calls under their method name instead of per call.
+type miniCanceler struct {
+	byMethod  bool
+	cancels   sync.Map
+	canceling uint32
+}
+
+func newMiniCanceler(ctx context.Context, byMethod bool) *miniCanceler {
+	c := &miniCanceler{byMethod: byMethod}
+	vrt.Go(func() {
+		vrt.AwaitDone(ctx)
+		atomic.StoreUint32(&c.canceling, 1)
+		c.cancels.Range(func(_, v any) bool {
+			vrt.Cancel(v.(context.CancelFunc))
+			return true
+		})
+	})
+	return c
+}
+
+func (c *miniCanceler) stream(method, tag string, blocking bool) string {
+	if atomic.LoadUint32(&c.canceling) == 1 {
+		return "refused " + tag
+	}
+	cctx, cancel := context.WithCancel(context.Background())
+	var key any = &cancel
+	if c.byMethod {
+		key = method
+	}
+	c.cancels.Store(key, cancel)
+	res := "returned " + tag
+	if blocking {
+		vrt.AwaitDone(cctx) // the handler serves until its context is cancelled
+		res = "canceled " + tag
+	}
+	c.cancels.Delete(key)
+	vrt.Cancel(cancel)
+	return res
+}
+
+type cancelerEnv struct {
+	c        *miniCanceler
+	shutdown context.CancelFunc
+}
+
+func cancelerScenario(name string, byMethod bool, prefix bool, calls ...[3]string) *vrt.Scenario {
+	sc := &vrt.Scenario{Name: name,
+		Setup: func() any {
+			ctx, cancel := context.WithCancel(context.Background())
+			return &cancelerEnv{c: newMiniCanceler(ctx, byMethod), shutdown: cancel}
+		}}
+	if prefix {
+		sc.Prefix = func(e any) { e.(*cancelerEnv).c.stream("/svc/Watch", "pre", false) }
+	}
+	for _, call := range calls {
+		call := call
+		sc.Threads = append(sc.Threads, func(e any) any { return e.(*cancelerEnv).c.stream(call[0], call[1], call[2] == "block") })
+		sc.Labels = append(sc.Labels, "stream("+call[2]+")")
+	}
+	sc.Threads = append(sc.Threads, func(e any) any { vrt.Cancel(e.(*cancelerEnv).shutdown); return "shutdown" })
+	sc.Labels = append(sc.Labels, "shutdown")
+	sc.Env = []int{len(sc.Threads) - 1}
+	return sc
+}
+
+func TestEnvProjectionOracle(t *testing.T) {
+	same := [][3]string{{"/svc/Watch", "t0", "block"}, {"/svc/Watch", "t1", "block"}}
+	mixed := [][3]string{{"/svc/Watch", "t0", "block"}, {"/svc/Watch", "t1", "return"}}
+	other := [][3]string{{"/svc/Watch", "t0", "block"}, {"/svc/Tail", "t1", "block"}}
+	for _, o := range []vrt.Options{{Bound: 2}, {Complete: true}} {
+		// per-call registration: whatever the order, a call behaves as it does alone with the
+		// shutdown in the same order (this includes the executions in which a call registers
+		// after the sweep and is never cancelled: it blocks alone, too)
+		for i, calls := range [][][3]string{same, mixed, other} {
+			r := vrt.Explore(cancelerScenario(fmt.Sprint("canceler-ok-", i), false, i == 1, calls...), o)
+			if r.HarnessError != "" || len(r.Findings) != 0 {
+				t.Fatalf("%+v calls %v: false alarm: %s %+v", o, calls, r.HarnessError, r.Findings)
+			}
+			if r.Projections == 0 || len(r.Outcomes) < 3 {
+				t.Fatalf("vacuous: %d projections, outcomes %v", r.Projections, r.Outcomes)
+			}
+		}
+		// registration by method name: two calls of ONE method disturb each other
+		r := vrt.Explore(cancelerScenario("canceler-by-method", true, false, same...), o)
+		f := has(r, "differential")
+		if r.HarnessError != "" || f == nil {
+			t.Fatalf("%+v: shared slot not observed: %s %+v", o, r.HarnessError, r.Findings)
+		}
+		for i := 0; i < 3; i++ {
+			rr := vrt.Replay(cancelerScenario("canceler-by-method", true, false, same...), f.Schedule, vrt.Options{})
+			if rr.HarnessError != "" || has(rr, "differential") == nil {
+				t.Fatalf("recorded schedule does not replay: %s %+v", rr.HarnessError, rr.Findings)
+			}
+		}
+		r = vrt.Explore(cancelerScenario("canceler-by-method-mixed", true, false, mixed...), o)
+		if has(r, "differential") == nil {
+			t.Fatalf("%+v: open/open/complete/shutdown not observed: %+v", o, r.Findings)
+		}
+		// ... calls of different methods do not
+		r = vrt.Explore(cancelerScenario("canceler-by-method-other", true, false, other...), o)
+		if r.HarnessError != "" || len(r.Findings) != 0 {
+			t.Fatalf("%+v: false alarm for different methods: %s %+v", o, r.HarnessError, r.Findings)
+		}
 	}
 }
